@@ -163,7 +163,13 @@ def do_benign(a):
     with ThreadPoolExecutor(a.jobs) as ex:
         results = list(ex.map(one, dirs))
     os.makedirs(os.path.join(VERIF, "mutants"), exist_ok=True)
-    json.dump({"tier": a.tier, "results": results}, open(os.path.join(VERIF, "mutants", "results-benign.json"), "w"), indent=1)
+    path = os.path.join(VERIF, "mutants", "results-benign.json")
+    merged = {}
+    if a.only and os.path.exists(path):
+        merged = {r["id"]: r for r in json.load(open(path))["results"]}
+    for r in results:
+        merged[r["id"]] = r
+    json.dump({"tier": a.tier, "results": [merged[k] for k in sorted(merged)]}, open(path, "w"), indent=1)
     for r in results:
         if "error" in r:
             print(r["id"], "ERROR", r["error"])
